@@ -11,3 +11,23 @@ package bifrost_http
 //@   ensures ret ==> d.LookupHTTPHandlerMethod() == as(other, LookupHTTPHandler).LookupHTTPHandlerMethod()
 //@   ensures ret ==> urlString(d.LookupHTTPHandlerURL()) == urlString(as(other, LookupHTTPHandler).LookupHTTPHandlerURL())
 //@   ensures ret ==> d.LookupHTTPHandlerClientID() == as(other, LookupHTTPHandler).LookupHTTPHandlerClientID()
+
+// ---- C35: an HTTP handler registration answers exactly the lookups its filters admit ----
+//@ spec fun httpPathMatch(c *HTTPHandlerController, rpath string) bool = (len(c.pathPrefixes) == 0 && c.pathRe == nil) || (exists i int :: 0 <= i && i < len(c.pathPrefixes) && hasPrefix(rpath, c.pathPrefixes[i])) || (c.pathRe != nil && reMatch(c.pathRe, rpath))
+
+//@ func (*HTTPHandlerController).HandleDirective
+//@   requires c.rc != nil
+// (the bus only hands out directives whose Validate succeeded: the URL is not nil)
+//@   requires implements(inst.GetDirective(), LookupHTTPHandler) ==> as(inst.GetDirective(), LookupHTTPHandler).LookupHTTPHandlerURL() != nil
+//@   loop 1 invariant !matched && stripPrefix == "" && (forall j int trigger c.pathPrefixes[j] :: 0 <= j && j <= rangeindex ==> !hasPrefix(rpath, c.pathPrefixes[j]))
+//@   ensures ret1 == nil
+//@   ensures implements(inst.GetDirective(), LookupHTTPHandler) && as(inst.GetDirective(), LookupHTTPHandler).LookupHTTPHandlerURL() != nil ==> ((len(ret0) != 0) <==> httpPathMatch(c, as(inst.GetDirective(), LookupHTTPHandler).LookupHTTPHandlerURL().Path))
+//@   ensures !implements(inst.GetDirective(), LookupHTTPHandler) ==> len(ret0) == 0
+// the prefix remembered for stripping is the configured prefix that matched (or none)
+//@   assert at call directive.R: stripPrefix == "" || ((stripPrefix in c.pathPrefixes) && hasPrefix(rpath, stripPrefix))
+
+// The transform strips exactly the remembered prefix, and only when stripping is enabled.
+//@ func (*HTTPHandlerController).HandleDirective$1
+//@   noframe
+//@   nosweep nil-deref
+//@   assert at call http.StripPrefix: arg0 == stripPrefix && c.stripPathPrefix && arg0 != ""
